@@ -96,7 +96,9 @@ def run(ctx):
     ctx.floor("R1.items", 8)
 
     # ---- R2 key files
-    wm = eng.walk("metadata_construction.gen_and_write_keys")
+    # (private helpers of the key module that the writer imports - a _write_key_file next to the
+    # reader's _read_key_file - are analysed in place, like the writer's own)
+    wm = eng.walk("metadata_construction.gen_and_write_keys", None, frozenset(eng.private_helpers("metadata_construction") | eng.private_helpers("common")) - {"metadata_construction.gen_and_write_keys"})
     fname = P(wm.params[0])
     rets = [p for p in wm.paths if p.kind == "return"]
     ok, why = bool(rets), "no returning path"
